@@ -108,7 +108,7 @@ theorem shared_writes : FactPreds.writesAreLocal = true := by decide
 
 /-- No assignment to a package-level variable, a captured variable or through a parameter. -/
 theorem no_global_or_captured_writes :
-    (Facts.sharedWrites.filter fun w => w.2.2 == "pkgvar" || w.2.2 == "captured" || w.2.2 == "paramelem") = [] := by
+    (Facts.sharedWrites.filter fun w => !FactPreds.localWrite w) = [] := by
   decide
 
 /-- A pointer-receiver method that writes its receiver (`buildCharacterList`) is only ever called
@@ -123,20 +123,21 @@ over constant recipes). A cache, a memo table, a `sync.Map`, a once-flag, a shar
 hidden state that could outlive a call or be shared between goroutines, and falsifies this. -/
 theorem package_state : FactPreds.packageStateOK = true := by decide
 
-/-- The predicates are not vacuous: the source has assignments of all three local kinds, calls of
-pointer methods, and package variables of both kinds. -/
-theorem facts_nonvacuous :
-    (Facts.sharedWrites.any fun w => w.2.2 == "freshfield") = true ∧
-    (Facts.sharedWrites.any fun w => w.2.2 == "recvfield") = true ∧
-    (Facts.sharedWrites.any fun w => w.2.2 == "recvdeep") = true ∧
-    Facts.pointerMethodCalls ≠ [] ∧
-    (Facts.packageVarKinds.any fun v => v.2 == "opaque") = true := by decide
+/-- The predicates accept what the source legitimately does (literal entries, so that a
+refactoring which happens to remove the last assignment of some kind does not matter)… -/
+example :
+    FactPreds.localWrite ("WLRecipe.Generate", "new.tokens", "freshfield") = true ∧
+    FactPreds.localWrite ("(*CharRecipe).buildCharacterList", "recv.allowedSet", "recvfield") = true ∧
+    FactPreds.localWrite ("(*CharRecipe).buildCharacterList", "(recv.requiredSets[]).s", "recvdeep:reqSet") = true ∧
+    FactPreds.localWrite ("nextSubset", "param[]", "freshparam") = true := by decide
 
 /-- …and they reject what they should: a write to a package variable, to the caller's slice
 through the receiver, through an unknown pointer. -/
 example :
     FactPreds.localWrite ("sfWrap", "MaxFailRate", "pkgvar") = false ∧
     FactPreds.localWrite ("(*CharRecipe).buildCharacterList", "recv.RequireSets[]", "recvdeep") = false ∧
+    FactPreds.localWrite ("Tokens.Scrub", "recv[].value", "recvdeep:Token") = false ∧
+    FactPreds.localWrite ("sortInPlace", "param[]", "paramelem") = false ∧
     FactPreds.localWrite ("NewSFFunction", "prev", "captured") = false ∧
     FactPreds.localWrite ("f", "q.x", "ptrfield") = false := by decide
 
